@@ -35,13 +35,25 @@ def issues_of(result):
     return out
 
 
-def analyse_fresh(code):
-    from pedal.core.commands import contextualize_report
+_config = {'html': False}
+
+
+def fresh_report(code):
+    """A cleared main report holding the code, with the formatter of this case (environments such as BlockPy install the HTML one)."""
+    from pedal.core.commands import contextualize_report, set_formatter
     from pedal.core.report import MAIN_REPORT
-    from pedal.tifa.commands import tifa_analysis
     MAIN_REPORT.full_clear()
     contextualize_report(code)
-    return tifa_analysis(), MAIN_REPORT
+    if _config['html']:
+        from pedal.core.formatting import HtmlFormatter
+        set_formatter(HtmlFormatter)
+    return MAIN_REPORT
+
+
+def analyse_fresh(code):
+    from pedal.tifa.commands import tifa_analysis
+    report = fresh_report(code)
+    return tifa_analysis(), report
 
 
 # programs whose analysis depends on what TIFA believes about a builtin constructor / module / class, and programs that
@@ -86,6 +98,10 @@ PAIR_POOL = [
     "word = 'abc'\nprint(word.foo + 1)\n",
     "count = 5\ncount.label = 'five'\nnums = [1]\nnums.size = 1\n",
     "count = 5\nprint(count.label + '!')\nnums = [1]\nprint(nums.size + 1)\n",
+    # a standard module whose import runs a program that ends in sys.exit() (TIFA really imports modules it has no description of)
+    "import unittest.__main__\n",
+    "box = []\nbox.append(box)\ntotal = box + 1\n",
+    "'abc'.upper()\n[1, 2].pop()\n",
 ]
 
 
@@ -123,6 +139,7 @@ def pairs(tier):
 
 
 def judge(case):
+    _config['html'] = bool(case.get('html'))
     if case.get('pair'):
         return judge_pair(case)
     code = case['code']
@@ -135,6 +152,8 @@ def judge(case):
     kinds = {type(n).__name__ for n in ast.walk(tree)}
     nontrivial = len(kinds) >= 5 or tag != 'program'
     viol, classes = [], [tag.split('=')[0] if tag != 'program' else ('cs1-program' if must_complete else 'any-program')]
+    if case.get('html'):
+        classes.append('html-formatter')
     from pedal.tifa.commands import tifa_analysis
     from pedal.tifa.tifa_core import TifaAnalysis
     try:
@@ -192,10 +211,7 @@ def judge(case):
     # the same analysis with the submission placed further down a file (what sections do): every line moves by exactly the offset
     try:
         offset = 7
-        from pedal.core.commands import contextualize_report
-        from pedal.core.report import MAIN_REPORT as _R
-        _R.full_clear()
-        contextualize_report(code)
+        _R = fresh_report(code)
         _R.submission.set_line_offset(offset)
         r6 = tifa_analysis()
         shifted = {label: sorted(((name, (line + offset) if line is not None else None) for name, line in items), key=repr) for label, items in i1.items()}
@@ -270,15 +286,23 @@ def sweep(tier):
             for args in METHOD_ARGS:
                 yield {'code': 'target = %s\nresult = target.%s(%s)\nprint(result)\n' % (lit, m, args), 'must_complete': True,
                        'tag': 'method=%s.%s' % (tname, m)}
+            # the same method on the literal itself, result thrown away, messages rendered by the HTML formatter
+            yield {'code': '%s.%s(%s)\n' % ('(5)' if lit == '5' else lit, m, METHOD_ARGS[1]), 'must_complete': True, 'tag': 'method=%s.%s' % (tname, m), 'html': True}
     extra = ['import math\nprint(math.sqrt(2), math.pi, math.floor(2.5))\n', 'import random\nprint(random.randint(1, 6))\n',
              'import string\nprint(string.ascii_letters)\n', 'import sys\nsys.stdout.write("x")\n', 'from math import *\nprint(sqrt(4))\n',
              'import os\nprint(os.getcwd())\n', 'x = [1, 2, 3]\nfor i, v in enumerate(x):\n    print(i, v)\n',
              'd = {}\nfor k, v in d.items():\n    print(k, v)\n', 'words = "a b".split()\nprint(sorted(words)[0].upper())\n',
              'def f(a, b=2, *c, **d):\n    return a\nprint(f(1))\n', 'x = (5).bit_length()\nprint(x)\n', 'n = 5\nprint(n.bit_length())\n',
              'total = 0\nfor ch in reversed("abc"):\n    total += ord(ch)\nprint(total)\n', 'print(list(filter(None, [0, 1])))\n',
-             'm = __import__("math")\nprint(m.pi)\n', 'vals = sorted([3, 1], reverse=True)\nprint(vals[0])\n']
+             'm = __import__("math")\nprint(m.pi)\n', 'vals = sorted([3, 1], reverse=True)\nprint(vals[0])\n',
+             # results that are thrown away, on receivers that are not names
+             "'abc'.upper()\n", '[1, 2].pop()\n', "{'a': 1}.get('a')\n", "print('a b'.split()[0].upper())\n'a b'.split()[0].upper()\n",
+             '(lambda a: a)(1)\n', 'len("abc")\n',
+             # a list that contains itself
+             'box = []\nbox.append(box)\ntotal = box + 1\n', 'box = []\nbox.append(box)\nprint(box[0][0])\nfor b in box:\n    print(b + 1)\n']
     for code in extra:
         yield {'code': code, 'must_complete': True, 'tag': 'program'}
+        yield {'code': code, 'must_complete': True, 'tag': 'program', 'html': True}
 
 
 def corpus_cases(tier):
@@ -296,7 +320,7 @@ def programs(tier):
 
 
 def cs1(tier):
-    return CS1.cs1_program().map(lambda p: {'code': p['code'], 'must_complete': True, 'tag': 'program'})
+    return st.tuples(CS1.cs1_program(), st.booleans()).map(lambda t: dict({'code': t[0]['code'], 'must_complete': True, 'tag': 'program'}, **({'html': True} if t[1] else {})))
 
 
 STRATEGIES = {'programs': programs, 'cs1': cs1}
